@@ -135,7 +135,8 @@ type InstanceInfo struct {
 	Agg      gpbft.Aggregate
 	Base     *gpbft.TipSet
 	Tree     [][]*gpbft.TipSet // branches; branch[b][d] tipset at depth d+1 above base
-	Inputs   map[int]*gpbft.ECChain // per honest member
+	Inputs   map[int]*gpbft.ECChain // per honest member (current incarnation)
+	AllInputs []*gpbft.ECChain      // every chain an honest member ever proposed in this instance (restarts may redraw)
 	Decided  *gpbft.ECChain         // first honest decision seen
 	DecidedBy int
 	treeBuilt bool
@@ -167,6 +168,7 @@ type World struct {
 	viol *kernel.Violation
 	ctx  context.Context
 	wire map[wireKey]struct{}
+	incompat map[[2]uint64]int
 	vo   *validatorOracle
 }
 
@@ -356,6 +358,7 @@ func (w *World) inputFor(m *Member, info *InstanceInfo) *gpbft.ECChain {
 	}
 	ch := &gpbft.ECChain{TipSets: append([]*gpbft.TipSet{info.Base}, info.Tree[b][:l]...)}
 	info.Inputs[m.Idx] = ch
+	info.AllInputs = append(info.AllInputs, ch)
 	return ch
 }
 
